@@ -1850,7 +1850,12 @@ def rule_xsd_gkf(ctx):
         lenient = []
         if uninspected:
             lenient.append("the attributes of <%s> are not inspected: any attribute is accepted" % e)
-        if first_only:
+        if first_only and len(want_a) > 1:
+            # not leniency: the schema allows several attributes on this element, the handler reads one
+            problems.append("only the first attribute of <%s> is read (the attribute array is not read in a "
+                            "loop) although the schema declares %d attributes: a schema-valid element loses "
+                            "every attribute after the first (ignored or reported as missing)" % (e, len(want_a)))
+        elif first_only:
             lenient.append("only the first attribute of <%s> is inspected (the attribute array is not read "
                            "in a loop): further attributes are silently ignored" % e)
         for x in sorted(ext):
